@@ -73,6 +73,9 @@ type CDid struct {
 	n        int
 	Deact    bool
 	Kid      string
+	// ReuseSigners: every request is signed with a signer object that has already signed a discarded draft of the same
+	// request (a client keeps one signer per key and signs drafts, retries and several requests with it)
+	ReuseSigners bool
 }
 
 func (d *CDid) newKey(prefix string) *ref.Key {
@@ -161,6 +164,13 @@ func (d *CDid) Update(patches []interface{}, from, until int64) (*BuiltOp, error
 	}
 	info := &client.UpdateRequestInfo{DidSuffix: d.Suffix, Patches: lp, UpdateCommitment: nk.Commitment(d.Code), UpdateKey: jwk,
 		MultihashCode: uint(d.Code), Signer: libSigner(d.CurU, d.Kid), RevealValue: d.CurU.Reveal(d.Code), AnchorFrom: from, AnchorUntil: until}
+	if d.ReuseSigners {
+		draft := *info
+		draft.UpdateCommitment = d.newKey("T").Commitment(d.Code)
+		if _, err := client.NewUpdateRequest(&draft); err != nil {
+			return nil, err
+		}
+	}
 	req, err := client.NewUpdateRequest(info)
 	if err != nil {
 		return nil, err
@@ -197,6 +207,13 @@ func (d *CDid) Recover(patches []interface{}, opaque map[string]interface{}, ori
 		}
 		info.Patches = lp
 	}
+	if d.ReuseSigners {
+		draft := *info
+		draft.RecoveryCommitment = d.newKey("T").Commitment(d.Code)
+		if _, err := client.NewRecoverRequest(&draft); err != nil {
+			return nil, err
+		}
+	}
 	req, err := client.NewRecoverRequest(info)
 	if err != nil {
 		return nil, err
@@ -220,6 +237,13 @@ func (d *CDid) Deactivate(from, until int64) (*BuiltOp, error) {
 	}
 	info := &client.DeactivateRequestInfo{DidSuffix: d.Suffix, RecoveryKey: jwk, Signer: libSigner(d.CurR, d.Kid),
 		RevealValue: d.CurR.Reveal(d.Code), AnchorFrom: from, AnchorUntil: until}
+	if d.ReuseSigners {
+		draft := *info
+		draft.AnchorFrom, draft.AnchorUntil = 7, 8
+		if _, err := client.NewDeactivateRequest(&draft); err != nil {
+			return nil, err
+		}
+	}
 	req, err := client.NewDeactivateRequest(info)
 	if err != nil {
 		return nil, err
